@@ -7,6 +7,7 @@
 //   as std::string has no defined result (out_of_range / precondition) or the result does not
 //   fit into the capacity.
 // q_<fam> / qd_<fam> / cmp_1 / cmp_5 / copy_m / replace : members on a string with given contents.
+// copyb / copyb2 / vcopyb : copy into a caller's buffer, the whole destination (with guard characters) is observed.
 // Source arguments are exact-size heap copies (not NUL-terminated).
 #include "common.hpp"
 
@@ -1280,6 +1281,67 @@ struct Run {
         return true;
     }
 
+    // copyb / copyb2 / vcopyb: the members that write into a CALLER's buffer, on a destination whose characters are
+    // all given by the case line (non-zero, any length >= the number of characters to copy) between two guard
+    // characters; BOTH legs print the returned count and the WHOLE destination (guards included) after the call:
+    // copy stores nothing but the copied characters (no terminator behind them, nothing in front).
+    //   copyb  content dest count pos : e.copy(dest, count, pos)
+    //   copyb2 content dest count     : e.copy(dest, count)               (default pos)
+    //   vcopyb content dest count pos : etl::basic_string_view<Char>(e).copy(dest, count, pos)
+    static constexpr i64 guardChar = 90;
+    static bool copy_buf(std::string const& op, Toks& in, Out& impl, Out& ref)
+    {
+        Src<Char> content(in.list());
+        auto dv  = in.list();
+        auto cnt = static_cast<std::size_t>(in.unum());
+        auto pos = op == "copyb2" ? std::size_t{0} : static_cast<std::size_t>(in.unum());
+        if (content.n > Cap) {
+            impl.tok("contract");
+            return true;
+        }
+        // the destination must hold the characters to copy (otherwise neither library has a defined result)
+        auto const rlen = pos <= content.n ? std::min(cnt, content.n - pos) : std::size_t{0};
+        if (rlen > dv.size()) { return false; }
+        E e(static_cast<Char const*>(content.p), content.n);
+        S r(content.p, content.n);
+        auto make = [&] {
+            std::vector<Char> b(dv.size() + 2, static_cast<Char>(guardChar));
+            for (std::size_t i = 0; i < dv.size(); ++i) { b[i + 1] = static_cast<Char>(dv[i]); }
+            return b;
+        };
+        auto dump = [](Out& o, std::size_t k, std::vector<Char> const& b) {
+            o.tok("ok").unum(k).unum(b.size());
+            for (auto c : b) { o.num(static_cast<i64>(c)); }
+        };
+        auto d1 = make();
+        auto d2 = make();
+        guarded(impl, [&](Out& o) {
+            std::size_t k = 0;
+            if (op == "copyb") {
+                k = e.copy(d1.data() + 1, cnt, pos);
+            } else if (op == "copyb2") {
+                k = e.copy(d1.data() + 1, cnt);
+            } else {
+                etl::basic_string_view<Char> v = e;
+                k                              = v.copy(d1.data() + 1, cnt, pos);
+            }
+            dump(o, k, d1);
+        });
+        if (pos <= r.size()) {
+            std::size_t k = 0;
+            if (op == "copyb") {
+                k = r.copy(d2.data() + 1, cnt, pos);
+            } else if (op == "copyb2") {
+                k = r.copy(d2.data() + 1, cnt);
+            } else {
+                std::basic_string_view<Char> v = r;
+                k                              = v.copy(d2.data() + 1, cnt, pos);
+            }
+            dump(ref, k, d2);
+        }
+        return true;
+    }
+
     static bool run(std::string const& op, Toks& in, Out& impl, Out& ref)
     {
         if (op == "hist") { return hist(in, impl, ref); }
@@ -1289,6 +1351,7 @@ struct Run {
             if (op == "replace5" || op == "replacep" || op == "replacez") { return replace_more(op, in, impl, ref); }
             if (op == "replacei" || op == "replaceip" || op == "replaceiz" || op == "replacef") { return replace_iter(op, in, impl, ref); }
             if (op == "replaces" || op == "replace5s" || op == "replaceps" || op == "replacezs" || op == "replaceis" || op == "replaceips" || op == "replaceizs") { return replace_self(op, in, impl, ref); }
+            if (op == "copyb" || op == "copyb2" || op == "vcopyb") { return copy_buf(op, in, impl, ref); }
             auto k = op.substr(0, op.find('_'));
             if (k == "q" || k == "qd" || k == "cmp" || k == "copy") { return query(op, in, impl, ref); }
             return query2(op, in, impl, ref);
